@@ -1,6 +1,11 @@
 pub mod c01;
 pub mod c02;
 pub mod c03;
+pub mod c04;
+pub mod c05;
+pub mod c14;
+pub mod oligo_exec;
+pub mod c06;
 pub mod c09;
 pub mod c18;
 
@@ -56,6 +61,54 @@ pub fn all() -> Vec<PropInfo> {
         rule: "one evaluation = one (k, code) pair of the exhaustive enumeration of all 4^k codes (plus one structural check per k and one per header source); \
                non-trivial = the code is canonical (its column is specified); entries of the k-mer->index vector at non-canonical codes are not inspected; distinct by (k, code)",
         assumptions: &["header via the executable is checked for k in 3..=7 (the range the CLI accepts) and all three presets, in normalised and counts mode"],
+        abort_is_violation: false,
+    },
+    PropInfo {
+        id: "C04",
+        run: c04::run,
+        replay: c04::replay,
+        shards: (8, 16),
+        watchdog: (600, 7200),
+        rule: "records (SeqGen incl. foreign bytes, low-complexity and palindromic content, degenerate lengths) x k in 1..=8 x {normalised, counts}: (1) the per-sequence routine compared unrounded with model counts; \
+               (2) the file API through both writers and (3) the executable (k 3..=7), where every record is followed by its reverse-complement, lower-case and T->U variants so that the invariances are checked on the same output; \
+               values: exact integers in counts mode, within 5e-7 of count/total in normalised mode; non-trivial = some record has >= 2 distinct non-zero columns; distinct by hash of the case",
+        assumptions: &["normalised text compared with a tolerance of 5e-7 + 1e-12 (\"correct to 6 decimals\"), variant rows within 1e-6", "Python leg is exercised by C13's suite"],
+        abort_is_violation: false,
+    },
+    PropInfo {
+        id: "C05",
+        run: c05::run,
+        replay: c05::replay,
+        shards: (8, 16),
+        watchdog: (600, 7200),
+        rule: "record lists (0..=40 quick / 300 thorough) x k 1..=4 x threads 1..=16 x batch limit {1 byte, one record, three records, half, 4 GiB} x writer {mmap, batch} x norm x header x 3 delimiters x container (FASTA, wrapped, CRLF, FASTQ, gzip incl. multi-member) x schedule (free, perturbed, controlled choice vector); \
+               oracle: baseline (1 thread, batch writer, single-line FASTA) matches the model row by row, the generated configuration gives identical bytes, header-on = header line + header-off bytes; plus bounded-exhaustive enumeration of all hook-granularity schedules of the mmap writer for small inputs; \
+               non-trivial = >= 3 records and (threads >= 2 or >= 2 batches or a non-FIFO controlled schedule or a non-baseline container); distinct by hash of the case",
+        assumptions: &["interleavings finer than the two schedule points per worker loop are explored only by free-running threads", "mmap writer is only used in normalised mode (it asserts so)"],
+        abort_is_violation: false,
+    },
+    PropInfo {
+        id: "C14",
+        run: c14::run,
+        replay: c14::replay,
+        shards: (8, 16),
+        watchdog: (600, 7200),
+        rule: "mmap writer: records x k 1..=8 x delimiters of length 0..=4 x header x threads x schedule; every (pos,len,cap) logged in MMWriter::write_at must be in bounds, pairwise disjoint and tile [0,cap), cap = file size = header + n x row length, no NUL byte in the file; \
+               shards are built with debug assertions so a violated get_unchecked precondition aborts the shard (dead shard = violation, journaled case = replay); \
+               non-trivial = >= 2 records and (delimiter length != 1 or header or threads >= 2); distinct by hash of the case",
+        assumptions: &["an out-of-bounds read through a site without ub_checks is not observable", "the write-log hook panics before an out-of-bounds copy would happen, so the harness process is not corrupted"],
+        abort_is_violation: true,
+    },
+    PropInfo {
+        id: "C06",
+        run: c06::run,
+        replay: c06::replay,
+        shards: (8, 16),
+        watchdog: (300, 3600),
+        rule: "well-formed record lists serialised as FASTA (single-line / wrapped / CRLF / no final newline) or 4-line FASTQ, plain or gzip with 1..=5 members split at arbitrary byte offsets (stored or deflated), \
+               read back through SeqFormat::get + get_reader + Sequences and through seq_stats; oracle = the record list itself (round trip); \
+               non-trivial = >= 2 records and (wrapped or CRLF or no final newline or an empty record or >= 2 gzip members or a line > 8 KiB); distinct by hash of the case",
+        assumptions: &["only well-formed input: unique ids without white space, one space before the description, no blank lines, FASTQ only when every record has >= 1 base (rust-bio rejects empty FASTQ sequences), ASCII sequence bytes"],
         abort_is_violation: false,
     },
     PropInfo {
